@@ -10,7 +10,7 @@ the extractors see of a given tree, and `insertNoise` / `strip` say which trees 
   listChildSegments   utils.py:197-219 (both branches)
   extractIdentifier   utils.py:222-225
   nextSegment         extractors/merge.py:35-36,109 (`segments[i + 1]` over the FILTERED list)
-  tableParts          sqlfluff/models.py:43-75 `SqlFluffTable.of` — with the repair D30 (noise dropped before the positional
+  tableParts          sqlfluff/models.py:43-75 `SqlFluffTable.of` — with the repair D40 (noise dropped before the positional
                       logic); `tablePartsRaw` is the code before the repair
   splitKeep           utils/helpers.py:55-69 `split`: the filter that drops `;`-only and comment-only pieces (the splitter
                       itself, sqlparse, is not modelled: pieces are given)
@@ -157,7 +157,7 @@ def tablePartsOf (whole : Seg) (segs : List Seg) : List String × String :=
   | some (i + 1) => (((segs.take (i + 1)).map Seg.raw), ((segs[i + 2]?.map Seg.raw).getD ""))
   | _ => ([], if whole.type == "identifier" then whole.raw else (segs.head?.map Seg.raw).getD "")
 
-/-- the code BEFORE the repair D30: positions counted over the raw child list -/
+/-- the code BEFORE the repair D40: positions counted over the raw child list -/
 def tablePartsRaw (t : Seg) : List String × String := tablePartsOf t t.children
 
 /-- the repaired code: whitespace, comments and meta segments are dropped first -/
